@@ -225,6 +225,10 @@ func main() {
 			b.cur = "dynamic"
 			b.scenarioDynamic()
 		}
+		if want["utils"] || (all && i%4 == 2) {
+			b.cur = "utils"
+			b.scenarioUtils()
+		}
 		if want["saturated"] || (all && i%4 == 1) {
 			b.cur = "saturated"
 			b.scenarioSaturated()
